@@ -209,7 +209,8 @@ func init() {
 		Harnesses: []HarnessSpec{
 			{Name: "C13_sequence", Expect: []string{"end"}, TerminationClaim: true, Witnesses: 4,
 				Quick:    []Params{{"M": 3, "P": 1, "L": 2, "maxCycles": 2}, {"M": 3, "P": 2, "L": 2, "maxCycles": 1}, {"M": 3, "P": 2, "L": 1, "maxCycles": 2, "prefix": 1}},
-				Thorough: []Params{{"M": 3, "P": 1, "L": 3, "maxCycles": 2}, {"M": 3, "P": 2, "L": 3, "maxCycles": 1}, {"M": 4, "P": 2, "L": 2, "maxCycles": 2}, {"M": 3, "P": 2, "L": 2, "maxCycles": 2, "prefix": 1}, {"M": 3, "P": 1, "L": 2, "maxCycles": 2, "prefix": 2}, {"M": 4, "P": 2, "L": 1, "maxCycles": 3, "prefix": 3}}},
+				Thorough: []Params{{"M": 3, "P": 1, "L": 2, "maxCycles": 2}, {"M": 3, "P": 2, "L": 2, "maxCycles": 1}, {"M": 3, "P": 2, "L": 1, "maxCycles": 2, "prefix": 1},
+					{"M": 4, "P": 2, "L": 2, "maxCycles": 2}, {"M": 3, "P": 2, "L": 2, "maxCycles": 2, "prefix": 1}, {"M": 3, "P": 1, "L": 2, "maxCycles": 2, "prefix": 2}}},
 			{Name: "C13_inapplicable", Expect: []string{"end"}, TerminationClaim: true, Witnesses: 2,
 				Quick:    grid([]string{"M", "P", "n", "maxCycles", "run"}, []int{3}, []int{1, 2}, []int{0, 1, 2}, []int{2}, []int{0, 1}),
 				Thorough: grid([]string{"M", "P", "n", "maxCycles", "run"}, []int{3, 4}, []int{1, 2}, []int{0, 1, 2, 3}, []int{1, 3}, []int{0, 1})},
@@ -218,9 +219,9 @@ func init() {
 				Thorough: grid([]string{"M", "P", "n", "steps", "maxCycles", "codelen", "subset"}, []int{3}, []int{1, 2}, []int{2}, []int{0, 1}, []int{2}, []int{1, 2}, []int{1})},
 			{Name: "C13_reset_fresh", Expect: []string{"end", "reset-equals-fresh"}, Witnesses: 4,
 				Quick:    grid([]string{"M", "P", "n", "steps", "maxCycles", "codelen"}, []int{3}, []int{1, 2}, []int{1, 2}, []int{0, 1}, []int{2}, []int{1, 2}),
-				Thorough: grid([]string{"M", "P", "n", "steps", "maxCycles", "codelen"}, []int{3, 4}, []int{1, 2}, []int{1, 2, 3}, []int{0, 1, 2}, []int{3}, []int{1, 2})},
+				Thorough: grid([]string{"M", "P", "n", "steps", "maxCycles", "codelen"}, []int{3, 4}, []int{1, 2}, []int{1, 2}, []int{0, 1, 2}, []int{3}, []int{1, 2})},
 		},
-		Outside: []string{"sequences longer than the listed depth (quick: 2 calls from a fresh simulator, or 1 call after a prefix of 1..2 spawned warriors; thorough: 3 / 2)", "cores other than 3..4 cells", "sampling beyond the exhaustive depth is not done (solver-based only)"},
+		Outside: []string{"sequences longer than the listed depth (2 calls from a fresh simulator, or 1..2 calls after a prefix of 1..2 spawned warriors; depth 3 did not finish within the time budget)", "cores other than 3..4 cells", "sampling beyond the exhaustive depth is not done (solver-based only)"},
 	})
 
 	Properties = append(Properties, &PropertySpec{
